@@ -30,7 +30,7 @@
 (*   LookPool(r)     step 2: reader pool (by segment+offset, or by         *)
 (*                   searching the closed indexes newest first)            *)
 (***************************************************************************)
-EXTENDS Naturals, Sequences, FiniteSets, TLC
+EXTENDS Naturals, Sequences, FiniteSets, TLC, Json
 CONSTANTS Tx, Cap, MaxSeg, Reader,
           WatchPerSegment,   \* TRUE: the design; FALSE: one watch channel shared by all segments
           SwapInstallsOld    \* TRUE: the design; FALSE: sealed segment handed to the reader pool
@@ -59,7 +59,9 @@ vars == <<seg, content, synced, pending, liveIdx, liveSeg, closed, pool, watch, 
 
 Segs == 0..MaxSeg
 Written == UNION {{content[g][i] : i \in 1..Len(content[g])} : g \in Segs}
-Idle == [pc |-> "idle", t |-> CHOOSE t \in Tx : TRUE, hit |-> FALSE, g |-> 0, pub |-> FALSE]
+\* at / pat: where the writer stood (<<wpc, seg>>) when the reader took its first / second step
+Idle == [pc |-> "idle", t |-> CHOOSE t \in Tx : TRUE, hit |-> FALSE, g |-> 0, pub |-> FALSE,
+         at |-> <<"idle", 0>>, pat |-> <<"idle", 0>>]
 
 Init ==
     /\ seg = 0
@@ -188,7 +190,8 @@ SegOf(t) == CHOOSE g \in Segs : \E i \in 1..Len(content[g]) : content[g][i] = t
 LookLive(r, t) ==
     /\ rd[r].pc = "idle" /\ t \in Written
     /\ rd' = [rd EXCEPT ![r] = [pc |-> "looked", t |-> t, hit |-> t \in liveIdx, g |-> liveSeg,
-                                pub |-> t \in liveIdx \cup UNION {closed[g] : g \in Segs}]]
+                                pub |-> t \in liveIdx \cup UNION {closed[g] : g \in Segs},
+                                at |-> <<wpc, seg>>, pat |-> <<wpc, seg>>]]
     /\ UNCHANGED <<seg, content, synced, pending, liveIdx, liveSeg, closed, pool, watch, waiting,
                    acked, failed, wpc, cur>>
 
@@ -202,7 +205,7 @@ LookPool(r) ==
     /\ rd[r].pc = "looked"
     /\ rd' = [rd EXCEPT ![r] = [pc |-> IF Found(r) THEN "found" ELSE "miss",
                                 t |-> rd[r].t, hit |-> rd[r].hit, g |-> rd[r].g,
-                                pub |-> rd[r].pub]]
+                                pub |-> rd[r].pub, at |-> rd[r].at, pat |-> <<wpc, seg>>]]
     /\ UNCHANGED <<seg, content, synced, pending, liveIdx, liveSeg, closed, pool, watch, waiting,
                    acked, failed, wpc, cur>>
 
@@ -243,6 +246,14 @@ PublishedFindable == \A t \in Published : FindNow(t)
 ReaderNeverMisses == \A r \in Reader : rd[r].pc = "miss" => ~rd[r].pub
 \* index entries never disappear: what a reader saw it keeps seeing
 PublishedMonotone == [][Published \subseteq Published']_vars
+
+\* schedule table for the replay harness (C15): every reachable combination of writer
+\* positions at the two steps of a lookup of a published transaction, with the outcome
+EmitSched == \A r \in Reader :
+    (rd[r].pc \in {"found", "miss"} /\ rd[r].pub) =>
+        PrintT(<<"TABLE", ToJson([live_at |-> rd[r].at, pool_at |-> rd[r].pat, hit |-> rd[r].hit,
+                                  sealed |-> (rd[r].g # rd[r].pat[2]) \/ ~rd[r].hit,
+                                  found |-> rd[r].pc = "found"])>>)
 
 (* C20 *)  \* every reply is eventually acknowledged
 EveryAppendCompletes == \A t \in Tx : (\E w \in waiting : w.t = t) ~> (t \in acked)
